@@ -117,14 +117,19 @@ func (p *Parser) Finish(seq Sequence) {
 func (p *Parser) run() {
 outer:
 	for {
+		verifSched(p, 10)
 		select {
 		case <-p.close:
 			break outer
 		default:
 			r := p.readRune()
+			verifSched(p, 11)
 			p.mu.Lock()
+			verifSched(p, 12)
 			p.escGen++
+			verifSched(p, 13)
 			p.state = anywhere(r, p)
+			verifSched(p, 14)
 			if p.state == nil {
 				p.mu.Unlock()
 				break outer
@@ -132,15 +137,22 @@ outer:
 			p.mu.Unlock()
 		}
 	}
+	verifSched(p, 20)
 	if p.escTimeout != nil {
 		p.escTimeout.Stop()
 	}
+	verifSched(p, 21)
 	p.mu.Lock()
+	verifSched(p, 22)
 	p.escGen++
+	verifSched(p, 23)
 	p.mu.Unlock()
+	verifSched(p, 24)
 	p.emit(EOF{})
+	verifSched(p, 25)
 	close(p.sequences)
 	p.closed <- true
+	verifSched(p, 29)
 }
 
 func (p *Parser) Close() {
@@ -500,15 +512,21 @@ func anywhere(r rune, p *Parser) stateFn {
 		p.escTimeout = time.AfterFunc(10*time.Millisecond, func() {
 			verifEscTimer(0)
 			defer verifEscTimer(1)
+			defer verifSched(p, 39)
+			verifSched(p, 30)
 			p.mu.Lock()
 			defer p.mu.Unlock()
+			verifSched(p, 31)
 			if p.escGen != gen {
 				// A read has returned, or the run loop has ended, since
 				// this ESC: it is not a lone ESC (anymore)
 				return
 			}
+			verifSched(p, 32)
 			p.emit(C0(0x1B))
+			verifSched(p, 33)
 			p.state = ground
+			verifSched(p, 34)
 			p.ignoreST = false
 		})
 		return escape
